@@ -20,6 +20,7 @@ import json
 import os
 import pathlib
 import shutil
+import sys
 import tempfile
 
 from sx import engine as eng
@@ -124,7 +125,7 @@ def install(env, notebooks):
     import nbformat
     import nbdime.nbmergeapp as app
     import nbdime.merging.notebooks as mn
-    saved = dict(read=app.read_notebook, nbformat=app.nbformat, diff=mn.diff_notebooks,
+    saved = dict(read=app.read_notebook, nbformat=app.nbformat, json=app.json, diff=mn.diff_notebooks,
                  decide=mn.decide_merge_with_diff, apply=mn.apply_decisions, popen=pathlib.Path.open)
     real_read = app.read_notebook
     names = {}
@@ -157,8 +158,17 @@ def install(env, notebooks):
             env.point("open-output")
             return FaultyFile(saved["popen"](self, mode, *a, **k), env)
         return saved["popen"](self, mode, *a, **k)
+    class JsonShim(object):
+        def __getattr__(self, name):
+            return getattr(json, name)
+
+        @staticmethod
+        def dump(obj, fp, *a, **k):
+            return json.dump(env.E.instance(obj), fp, *a, **k)
+
     app.read_notebook = read_notebook
     app.nbformat = NbformatShim()
+    app.json = JsonShim()
     mn.diff_notebooks = wrap("diff", saved["diff"])
     mn.decide_merge_with_diff = wrap("decide", saved["decide"])
     mn.apply_decisions = wrap("apply", saved["apply"])
@@ -169,13 +179,16 @@ def install(env, notebooks):
 def uninstall(saved):
     import nbdime.nbmergeapp as app
     import nbdime.merging.notebooks as mn
-    app.read_notebook, app.nbformat = saved["read"], saved["nbformat"]
+    app.read_notebook, app.nbformat, app.json = saved["read"], saved["nbformat"], saved["json"]
     mn.diff_notebooks, mn.decide_merge_with_diff, mn.apply_decisions = saved["diff"], saved["decide"], saved["apply"]
     pathlib.Path.open = saved["popen"]
 
 
+OUTMODES = ["file", "stdout", "decisions-file"]
+
+
 def make_cli(entry, script_idx, faults=True, placeholders=("none",), strats=(0,), props=("C08",), known=(),
-             force_ids=True):
+             force_ids=True, outmodes=("file",)):
     tm, sl, sr, il, ir = SCRIPTS[script_idx]
 
     def h(E):
@@ -183,6 +196,10 @@ def make_cli(entry, script_idx, faults=True, placeholders=("none",), strats=(0,)
         F.install_env("git")
         ph = placeholders[E.choice("placeholder", len(placeholders))] if len(placeholders) > 1 else placeholders[0]
         strat = STRATS[strats[E.choice("strat", len(strats))] if len(strats) > 1 else strats[0]]
+        om = outmodes[E.choice("outmode", len(outmodes))] if len(outmodes) > 1 else outmodes[0]
+        if ph == "both-null" and om == "decisions-file":
+            # agreed deletion with --decisions only pretty-prints (rendering is C16's subject)
+            om = "stdout"
         if faults:
             fi = E.choice("fault", 1 + len(STEPS) * len(KINDS))
             fault_step, fault_kind = (None, None) if fi == 0 else (STEPS[(fi - 1) // len(KINDS)], KINDS[(fi - 1) % len(KINDS)])
@@ -252,7 +269,7 @@ def make_cli(entry, script_idx, faults=True, placeholders=("none",), strats=(0,)
             assert out != NULL and not out.startswith("/dev/")
             saved, names = install(env, nbmap)
             names.update({paths["base"]: "read-base", paths["local"]: "read-local", paths["remote"]: "read-remote"})
-            status, exc = None, None
+            status, exc, captured = None, None, ""
             try:
                 try:
                     if entry == "nbmerge":
@@ -261,7 +278,15 @@ def make_cli(entry, script_idx, faults=True, placeholders=("none",), strats=(0,)
                         a.base, a.local, a.remote, a.out, a.decisions = paths["base"], paths["local"], paths["remote"], out, False
                         for c in ("sources", "outputs", "attachments", "metadata", "id", "details"):
                             setattr(a, c, None)
-                        status = app.main_merge(a)
+                        if om == "stdout":
+                            a.out = None
+                        elif om == "decisions-file":
+                            a.decisions = True
+                        real_stdout, sys.stdout = sys.stdout, io.StringIO()
+                        try:
+                            status = app.main_merge(a)
+                        finally:
+                            captured, sys.stdout = sys.stdout.getvalue(), real_stdout
                     else:
                         from nbdime.vcs.git import mergedriver
                         import nbdime.args as nargs
@@ -289,8 +314,8 @@ def make_cli(entry, script_idx, faults=True, placeholders=("none",), strats=(0,)
                 uninstall(saved)
             after = read_bytes(out)
             fired = env.fired
-            info = "entry %s script %d placeholder %s strategy %r fault %r/%r fired %r status %r exception %r" % (
-                entry, script_idx, ph, strat, fault_step, fault_kind, fired, status,
+            info = "entry %s script %d placeholder %s outmode %s strategy %r fault %r/%r fired %r status %r exception %r" % (
+                entry, script_idx, ph, om, strat, fault_step, fault_kind, fired, status,
                 (type(exc).__name__ + ": " + str(exc)[:80]) if exc else None)
             E.nontrivial(fired is not None or (lib is not None and len(lib[1]) > 0))
             if exc is not None and not fired:
@@ -310,12 +335,29 @@ def make_cli(entry, script_idx, faults=True, placeholders=("none",), strats=(0,)
             if ph == "both-null":
                 E.goal("agreed-deletion")
                 E.check("agreed-deletion-exits-zero", status == 0, info=info)
-                E.check("agreed-deletion-removes-output", after is None, info=info)
+                if om == "file":
+                    E.check("agreed-deletion-removes-output", after is None, info=info)
+                else:
+                    E.check("agreed-deletion-without-merged-output-leaves-file-untouched", after == before, info=info)
                 return
             conflicted = any(d.conflict for d in lib[1])
             E.goal("clean-exit", not conflicted)
             E.goal("conflict-exit", conflicted)
             E.check("exit-status-zero-iff-no-conflict", (status == 0) == (not conflicted), info=info)
+            if om == "stdout":
+                E.goal("merged-to-stdout")
+                E.check("stdout-mode-leaves-output-file-untouched", after == before, info=info)
+                after = captured.encode("utf8")
+            elif om == "decisions-file":
+                E.goal("decisions-to-file")
+                try:
+                    parsed = json.loads(after.decode("utf8"))
+                except Exception as ex:  # noqa
+                    E.fail("decisions-file-is-not-well-formed-json", info + " %s" % ex)
+                    return
+                want = json.loads(json.dumps(E.instance(list(lib[1]))))
+                E.check("decisions-file-equals-library-decisions", strict_equal(parsed, want), info=info)
+                return
             try:
                 parsed = json.loads(after.decode("utf8"))
             except Exception as ex:  # noqa
@@ -339,7 +381,8 @@ def shards(tier, props, known):
             out.append(("make_cli", "cli-%s-%d" % (entry, i),
                         dict(entry=entry, script_idx=i, faults=False,
                              placeholders=tuple(PLACEHOLDERS if entry == "nbmerge" else DRIVER_PLACEHOLDERS),
-                             strats=tuple(range(len(STRATS))), **kw)))
+                             strats=tuple(range(len(STRATS))),
+                             outmodes=tuple(OUTMODES) if entry == "nbmerge" else ("file",), **kw)))
         fs = range(len(SCRIPTS))
         for i in fs:
             out.append(("make_cli", "fault-%s-%d" % (entry, i),
